@@ -292,7 +292,8 @@ def withheld_answers(result):
 
 
 def problem(hist, result):
-    prop = "C02" if judged_by_spec(hist) else "none"
+    # histories with unreadable stat files: the clauses proved over `HistOKb` ("C02h", see c01.judge_as)
+    prop = "C02" if judged_by_spec(hist) else c01.judge_as(hist, "C02")
     result = withheld_answers(result)
     pr = c01.first_problem(result, prop)
     if pr and pr[0] == "spec":
@@ -356,6 +357,137 @@ def extra_history(rng, clk, n):
     return {"btime": h["btime"], "ops": out, "family": "x:" + kind, "hyp": h.get("hyp", True)}
 
 
+def blind_history(rng, clk):
+    """x:blind — objects built while /proc/<pid>/stat did not open (`_ident = (pid, None)`: hidepid mount, LSM, a transient
+    refusal), by Process(pid) or by a process_iter() sweep, next to objects with a start time (built before the refusal or
+    after it ended); the refusal ends with the same process still there or after the PID went to another process (live,
+    zombie, nobody; 0-2 recyclings); in between any queries on any object (create_time(), as_dict(['create_time']), hash,
+    ==, is_running, str, ppid, Process(pid), process_iter()); at the end is_running() and hash() of every object and == of
+    every pair.  Judged "C02h": C02_not_running_after_gone_readable, C02_eq_any_readability, hash stability."""
+    P = c01.Plan(rng, c01.rand_btime(rng), clk)
+    p = rng.choice(c01.PIDS)
+    P.ev(op="spawn", pid=p)
+    P.tick()
+    if rng.random() < 0.4:
+        P.ev(op="new", pid=p)                                    # a sibling with a start time
+    P.ev(op="hide", pid=p, on=True)
+    P.ev(op="new", pid=p) if rng.random() < 0.7 else P.ev(op="process_iter")
+    u = P.nobj - 1
+    if rng.random() < 0.7:
+        P.ev(op="hash", i=u)                                     # memoised in `_hash` from now on
+
+    def between():
+        i = u if rng.random() < 0.7 else rng.randrange(P.nobj)
+        r = rng.random()
+        if r < 0.35:
+            P.ev(op="create_time", i=i)
+        elif r < 0.5:
+            P.ev(op="other", i=i, what=rng.choice(["as_dict_ct", "as_dict_ct", "as_dict", "name", "eq_self", "str", "hash"]))
+        elif r < 0.6:
+            P.ev(op="hash", i=i)
+        elif r < 0.66:
+            P.ev(op="status", i=i)
+        elif r < 0.72:
+            P.ev(op="ppid", i=i)
+        elif r < 0.82:
+            P.ev(op="eq", i=i, j=rng.randrange(P.nobj))
+        elif r < 0.88 and P.k.procs:
+            P.ev(op="process_iter")
+        elif r < 0.94:
+            P.ev(op="new", pid=p)
+        else:
+            P.ev(op="is_running", i=rng.randrange(P.nobj))
+    if rng.random() < 0.35:
+        P.ev(op="hide", pid=p, on=False)                         # the refusal was transient: same process, readable now
+    for _ in range(rng.randrange(0, 3)):
+        between()
+    for _ in range(rng.choice([0, 1, 1, 1, 2])):
+        if rng.random() < 0.3:
+            P.ev(op="exit", pid=p)
+        P.ev(op="reap", pid=p)
+        P.tick()
+        if rng.random() < 0.85:
+            P.ev(op="spawn", pid=p)
+            if rng.random() < 0.2:
+                P.ev(op="exit", pid=p)
+        if rng.random() < 0.8:
+            P.ev(op="hide", pid=p, on=False)
+        for _ in range(rng.randrange(0, 4)):
+            between()
+        if rng.random() < 0.6:
+            P.ev(op="new", pid=p)                                # an object for whoever holds the PID now
+        if rng.random() < 0.25 and p in P.k.procs:
+            P.ev(op="hide", pid=p, on=True)
+            P.ev(op="new", pid=p)                                # another blind object, on the new holder
+            u = P.nobj - 1 if rng.random() < 0.5 else u
+    n = min(P.nobj, 5)
+    for i in range(n):
+        P.ev(op="is_running", i=i)
+        P.ev(op="hash", i=i)
+    for i in range(n):
+        for j in range(n):
+            if i != j:
+                P.ev(op="eq", i=i, j=j)
+    h = P.hist("x:blind", hyp=False)
+    return h
+
+
+def exhaustive_blind(maxlen, btime=1000):
+    """object 0 is built while the stat file of PID 5 does not open; all well-indexed histories head · w, 1 <= |w| <= maxlen,
+    head = spawn·hide·Process(5) or spawn·hide·Process(5)·reap·spawn (already recycled), over {stat readable, unreadable,
+    create_time(0), is_running(0), Process(5), ==(0,1), reap, spawn} that make the stat file readable at some point and ask
+    is_running(0) or ==(0,1)"""
+    import itertools
+    p = 5
+    alphabet = [
+        {"op": "hide", "pid": p, "on": False}, {"op": "hide", "pid": p, "on": True}, {"op": "create_time", "i": 0},
+        {"op": "is_running", "i": 0}, {"op": "new", "pid": p}, {"op": "eq", "i": 0, "j": 1},
+        {"op": "reap", "pid": p}, {"op": "spawn", "pid": p},
+    ]
+    h1 = [{"op": "spawn", "pid": p}, {"op": "hide", "pid": p, "on": True}, {"op": "new", "pid": p}]
+    h2 = h1 + [{"op": "reap", "pid": p}, {"op": "spawn", "pid": p}]
+    for head in (h1, h2):
+        for n in range(1, maxlen + 1):
+            for combo in itertools.product(alphabet, repeat=n):
+                if not any(o["op"] == "hide" and not o["on"] for o in combo):
+                    continue
+                if not any(o["op"] in ("is_running", "eq") for o in combo):
+                    continue
+                ops = [dict(o) for o in head] + [dict(o) for o in combo]
+                if not c01.well_indexed(ops):
+                    continue
+                yield {"btime": btime, "ops": ops, "family": "exhaustive:blind", "hyp": False}
+
+
+def blind_corpus():
+    p = 7
+    head = [{"op": "spawn", "pid": p}, {"op": "hide", "pid": p, "on": True}, {"op": "new", "pid": p}, {"op": "hash", "i": 0}]
+    recycled = head + [{"op": "reap", "pid": p}, {"op": "spawn", "pid": p}, {"op": "hide", "pid": p, "on": False},
+                       {"op": "create_time", "i": 0}, {"op": "new", "pid": p}, {"op": "eq", "i": 0, "j": 1},
+                       {"op": "is_running", "i": 0}, {"op": "hash", "i": 0}]
+    transient = head + [{"op": "hide", "pid": p, "on": False}, {"op": "other", "i": 0, "what": "as_dict_ct"},
+                        {"op": "new", "pid": p}, {"op": "eq", "i": 0, "j": 1}, {"op": "hash", "i": 0}, {"op": "hash", "i": 1}]
+    return [{"btime": 1000, "ops": recycled, "family": "x:blind:corpus", "hyp": False},
+            {"btime": 1000, "ops": transient, "family": "x:blind:corpus", "hyp": False}]
+
+
+def blind_features(h, result):
+    f = set()
+    if c01.judge_as(h, "C02") != "C02h":
+        return f
+    for (o, im, ie, mo, me, sp, aux) in result["rows"]:
+        if o["op"] == "is_running" and "bool" in sp:
+            if sp.get("readable") and not sp["bool"]:
+                f.add("blind:is_running_after_gone_stat_opens")
+            elif not sp["bool"]:
+                f.add("blind:is_running_after_gone_stat_unreadable(clause silent)")
+        if o["op"] == "eq" and im == {"kind": "bool", "v": True} and sp.get("known"):
+            f.add("blind:eq_true_with_known_start")
+        if o["op"] == "eq" and "known" in sp and not sp["known"] and sp.get("same_pid"):
+            f.add("blind:eq_both_unknown")
+    return f
+
+
 def btime0_history(rng, clk):
     """a machine that boots at the epoch (published btime 0) and whose clock is stepped later: INSIDE C02's quantifier and
     inside the theorems (C02_any_boot_full), judged by the specification"""
@@ -410,9 +542,18 @@ def corpus():
 def correspond_extra(ctx, res, driver_file, n_quick, n_thorough):
     impl = Impl2(ctx)
     try:
-        hists = corpus()
+        hists = corpus() + blind_corpus()
         for n in range(ctx.n(n_quick, n_thorough)):
             hists.append(extra_history(ctx.rng, impl.clk, n))
+        for n in range(ctx.n(n_quick // 3, n_thorough // 3)):
+            hists.append(blind_history(ctx.rng, impl.clk))
+        sweep = list(exhaustive_blind(4 if ctx.tier == "quick" else 5))
+        hists.extend(sweep)
+        res.extra["exhaustive_blind"] = (
+            "all %d well-indexed histories head.w, 1 <= |w| <= %d, head = spawn.unreadable.Process(5) or "
+            "spawn.unreadable.Process(5).reap.spawn (object 0 has no start time), over {stat readable, unreadable, create_time(0), "
+            "is_running(0), Process(5), ==(0,1), reap, spawn} with a readable phase and an is_running(0) or ==(0,1) (judged by "
+            "C02_not_running_after_gone_readable / C02_eq_any_readability)" % (len(sweep), 4 if ctx.tier == "quick" else 5))
         CH = 3000
         for a in range(0, len(hists), CH):
             chunk = hists[a:a + CH]
@@ -421,7 +562,7 @@ def correspond_extra(ctx, res, driver_file, n_quick, n_thorough):
             for h, r in zip(chunk, results):
                 fam = h["family"]
                 res.count("family:" + fam.split(":corpus")[0])
-                feats = c01.features(h, r)
+                feats = c01.features(h, r) | blind_features(h, r)
                 for o in h["ops"]:
                     if o.get("cls"):
                         feats.add("object_class:" + o["cls"])
